@@ -764,3 +764,69 @@ Lemma sm4_E_ok k b : bytes_ok (sm4_encrypt_block k b) = true.
 Proof. unfold sm4_encrypt_block, sm4_encrypt_rk. apply bytes_of_state_block16. Qed.
 Lemma sm4_DE k b : length b = 16 -> bytes_ok b = true -> sm4_decrypt_block k (sm4_encrypt_block k b) = b.
 Proof. apply decrypt_encrypt_rk. Qed.
+
+(* ---------- histories of SetIV / helper calls ------------------------------------------------------------------ *)
+(* what the standard gives for one call, from the values of that call and the IV in force *)
+Definition mode_spec (E D : list N -> list N -> list N) (iv : list N) (c : mode_call) : outcome (list N) :=
+  let k := m_key c in let x := m_in c in
+  match m_fn c, m_mode c with
+  | FnEcb, true => Ok (ecb_pkcs7 (E k) x)
+  | FnCbc, true => Ok (cbc_pkcs7 (E k) iv x)
+  | FnCFB, true => Ok (cfb_pkcs7 (E k) iv x)
+  | FnOFB, true => Ok (ofb_pkcs7 (E k) iv x)
+  | FnEcb, false => unpad_or_nil (concat (ecb_decrypt (D k) (blocks x)))
+  | FnCbc, false => unpad_or_nil (concat (cbc_decrypt (D k) iv (blocks x)))
+  | FnCFB, false => unpad_or_nil (concat (cfb_decrypt (E k) iv (blocks x)))
+  | FnOFB, false => unpad_or_nil (concat (ofb_crypt (E k) iv (blocks x)))
+  end.
+
+(* the IV in force after an optional SetIV: a rejected SetIV leaves the previous one *)
+Definition iv_after (iv : list N) (s : option (list N)) : list N :=
+  match s with Some v => if Nat.eqb (length v) 16 then v else iv | None => iv end.
+
+Definition setiv_result (s : option (list N)) : option (outcome unit) :=
+  match s with Some v => Some (if Nat.eqb (length v) 16 then Ok tt else Err 1) | None => None end.
+
+Fixpoint modes_spec_run (E D : list N -> list N -> list N) (iv : list N) (calls : list mode_call)
+  : list (option (outcome unit) * outcome (list N)) :=
+  match calls with
+  | [] => []
+  | c :: rest => let iv' := iv_after iv (m_setiv c) in
+                 (setiv_result (m_setiv c), mode_spec E D iv' c) :: modes_spec_run E D iv' rest
+  end.
+
+Definition mcall_ok (c : mode_call) : Prop :=
+  length (m_key c) = 16 /\ (m_mode c = false -> exists n, length (m_in c) = 16 * n).
+
+Section History.
+  Variables E D : list N -> list N -> list N.
+  Hypothesis E_len : forall k b, length (E k b) = 16.
+  Hypothesis D_len : forall k b, length (D k b) = 16.
+  Hypothesis E_ok : forall k b, bytes_ok (E k b) = true.
+  Hypothesis DE : forall k b, length b = 16 -> bytes_ok b = true -> D k (E k b) = b.
+
+  Lemma call_helper_spec p c : length (IV p) = 16 -> mcall_ok c -> call_helper E D p c = mode_spec E D (IV p) c.
+  Proof.
+    intros Hiv [Hk Hd]. unfold call_helper, mode_spec. destruct (m_fn c), (m_mode c).
+    - exact (ecb_encrypt_std E D E_len D_len E_ok DE p _ Hk Hiv _).
+    - destruct (Hd eq_refl) as [n Hn]. exact (ecb_decrypt_std E D E_len D_len E_ok DE p _ Hk Hiv _ n Hn).
+    - exact (cbc_encrypt_std E D E_len D_len E_ok DE p _ Hk Hiv _).
+    - destruct (Hd eq_refl) as [n Hn]. exact (cbc_decrypt_std E D E_len D_len E_ok DE p _ Hk Hiv _ n Hn).
+    - exact (cfb_encrypt_std E D E_len D_len E_ok DE p _ Hk Hiv _).
+    - destruct (Hd eq_refl) as [n Hn]. exact (cfb_decrypt_std E D E_len D_len E_ok DE p _ Hk Hiv _ n Hn).
+    - exact (ofb_encrypt_std E D E_len D_len E_ok DE p _ Hk Hiv _).
+    - destruct (Hd eq_refl) as [n Hn]. exact (ofb_decrypt_std E D E_len D_len E_ok DE p _ Hk Hiv _ n Hn).
+  Qed.
+
+  Lemma modes_run_spec calls : Forall mcall_ok calls -> forall p, length (IV p) = 16 ->
+    modes_run E D p calls = modes_spec_run E D (IV p) calls.
+  Proof.
+    induction 1 as [|c calls Hc HF IH]; intros p Hiv; [reflexivity|].
+    cbn [modes_run modes_spec_run]. unfold mode_do, iv_after, setiv_result.
+    destruct (m_setiv c) as [v|].
+    - unfold SetIV. destruct (Nat.eqb_spec (length v) 16) as [Hv|Hv]; cbn [negb].
+      + rewrite call_helper_spec by (try exact Hc; exact Hv). cbn [IV]. rewrite IH by exact Hv. reflexivity.
+      + rewrite call_helper_spec by assumption. rewrite IH by exact Hiv. reflexivity.
+    - rewrite call_helper_spec by assumption. rewrite IH by exact Hiv. reflexivity.
+  Qed.
+End History.
